@@ -79,8 +79,9 @@ def gen_cases(tier, seed):
     combos = [(me, W, sc) for me in (0, 1, 2, 5) for W in (2, 3, 4) for sc in ("default", "random")]
     if tier == "quick":
         combos = [c_ for j, c_ in enumerate(combos) if j % 4 == seed % 4]
-    for me, W, sc in combos:
-        out.append({"seed": env.seed_for(seed, ID, tier, "errlimit", me, W, sc), "mode": "preempt_errlimit", "max_errors": me, "W": W, "sched": sc, "n": 12, "ncalls": 12})
+    for j, (me, W, sc) in enumerate(combos):
+        out.append({"seed": env.seed_for(seed, ID, tier, "errlimit", me, W, sc), "mode": "preempt_errlimit", "max_errors": me, "W": W, "sched": sc, "n": 12, "ncalls": 12,
+                    "shape": "inflight" if (j + seed) % 2 else "independent"})
     return out
 
 
